@@ -432,3 +432,69 @@ def status_codes(st):
             continue
         out.append(0 if w[-1] == "OK" else int(w[2]) if len(w) > 2 and w[1] == "ERR" else -1)
     return out
+
+
+def model_tie(rep, written, limit=4000):
+    """Extracted writer model vs implementation: statuses + file bytes (UNCOMPRESSED/SNAPPY/LZ4), page
+    structure after decompression (GZIP/ZSTD)."""
+    try:
+        run = vlib.build_runner("writer")
+    except vlib.BuildError as e:
+        rep.tie_broken("extracted writer model does not build: " + str(e)[:600])
+        return
+    import pq, pq_codecs
+    sel = [(c, st, data) for c, st, data in written if st.fault is None and model_size(c) < limit
+           and model_line(c) is not None]
+    lines = []
+    for c, st, data in sel:
+        if c.options.codec in MODEL_CODECS:
+            lines.append(model_line(c))
+        else:
+            c0 = fc.Case(c.schema, fc.Options(**{**c.options.__dict__, "codec": "UNCOMPRESSED"}), c.ops, c.name)
+            lines.append(model_line(c0))
+    out, probs = vlib.run_sharded(run, lines)
+    for pr in probs:
+        rep.tie_broken(f"model runner died (rc={pr[1]}): {pr[2][-300:]}", pr[3])
+    n_exact = n_struct = 0
+    for (c, st, data), line, o in zip(sel, lines, out):
+        t = o.split()
+        if not t or t[0] != "OK":
+            rep.tie_broken(f"writer model does not run on a history the implementation accepts: {o[:200]}", line)
+            continue
+        msts = [int(x) for x in t[1].split(",")] if len(t) > 1 and t[1] else []
+        if msts != status_codes(st):
+            rep.tie_broken(f"statuses differ: model {msts}, implementation {status_codes(st)} ({c.name})", line)
+            continue
+        mbytes = bytes.fromhex(t[3]) if len(t) > 3 and t[3] != "-" else b""
+        closed = len(t) > 2 and t[2] == "1"
+        if not closed or data is None:
+            continue
+        if c.options.codec in MODEL_CODECS:
+            n_exact += 1
+            if mbytes != data:
+                k = next((i for i, (a, b) in enumerate(zip(mbytes, data)) if a != b), min(len(mbytes), len(data)))
+                rep.tie_broken(f"file bytes differ from the model's prediction at offset {k} (model {len(mbytes)} bytes, "
+                               f"implementation {len(data)} bytes; codec {c.options.codec}; {c.name})", line)
+        else:
+            n_struct += 1
+            a, b = pq.read_file(mbytes), pq.read_file(data)
+
+            def shape(pf, codec):
+                rows = []
+                for rg in pf.chunks:
+                    for ch in rg:
+                        for p in (ch.pages if ch is not None else []):
+                            raw = pf.data[p.body_offset:p.body_offset + p.compressed_size]
+                            rows.append((ch.rg, ch.col, p.num_values, pq_codecs.decompress(codec, raw, p.uncompressed_size)))
+                return rows
+            try:
+                sa, sb = shape(a, 0), shape(b, pq.CODEC_ID.get(c.options.codec, 0))
+            except Exception as e:              # undecodable page: C05's oracle reports it
+                rep.tie_broken(f"pages of a {c.options.codec} file cannot be decompressed for the comparison: {e}", line)
+                continue
+            if sa != sb:
+                rep.tie_broken(f"page structure after decompression differs from the model's prediction "
+                               f"({len(sa)} / {len(sb)} pages; codec {c.options.codec}; {c.name})", line)
+    rep.cov["model_tie"] = {"byte_exact_files": n_exact, "structure_after_decompression_files": n_struct}
+
+
